@@ -332,7 +332,11 @@ class _Watchdog(BaseException):
     """Raised by the per-run timer: the call neither returned nor raised within RUN_LIMIT_S."""
 
 
-RUN_LIMIT_S = 30.0
+# The watchdog counts CPU time of this process (ITIMER_PROF), not wall-clock time: on a busy machine a tiny solve can
+# wait tens of seconds for a core, and a "hang" verdict must never come from scheduling.  A wall-clock backstop far
+# beyond any plausible wait keeps a genuinely blocked call (sleeping, not spinning) from stalling the check.
+RUN_LIMIT_S = 60.0            # CPU seconds (a run needs ~0.1 s)
+WALL_BACKSTOP_S = 1800.0
 
 
 def _alarm(signum, frame):
@@ -343,16 +347,21 @@ def run_one(cfg, inst, badkind, seed=0):
     """Execute one configuration instance on the real code (under a watchdog) and describe what happened."""
     import signal
     install()
-    old = signal.signal(signal.SIGALRM, _alarm)
-    signal.setitimer(signal.ITIMER_REAL, RUN_LIMIT_S)
+    old = signal.signal(signal.SIGPROF, _alarm)
+    old_real = signal.signal(signal.SIGALRM, _alarm)
+    signal.setitimer(signal.ITIMER_PROF, RUN_LIMIT_S)
+    signal.setitimer(signal.ITIMER_REAL, WALL_BACKSTOP_S)
     try:
         return _run_one(cfg, inst, badkind, seed)
     except _Watchdog:
-        return dict(phase="timeout", exc="Timeout", is_value_error=False, msg=f"no result within {RUN_LIMIT_S}s",
+        return dict(phase="timeout", exc="Timeout", is_value_error=False,
+                    msg=f"no result within {RUN_LIMIT_S}s of CPU time (or {WALL_BACKSTOP_S}s wall)",
                     q_fwd=max(_Obs.bi_calls, 0), q_bwd=0, selects=None, default_levy=None, output_ok=None)
     finally:
+        signal.setitimer(signal.ITIMER_PROF, 0)
         signal.setitimer(signal.ITIMER_REAL, 0)
-        signal.signal(signal.SIGALRM, old)
+        signal.signal(signal.SIGPROF, old)
+        signal.signal(signal.SIGALRM, old_real)
 
 
 def _run_one(cfg, inst, badkind, seed=0):
@@ -426,7 +435,7 @@ def judge(entry, inst, badkind, obs):
     if ph == "timeout":
         findings.append((dict(finding="hang", st=cfg["st"], nt=cfg["nt"], method=cfg["method"], mal=cfg["mal"],
                               inst=inst, expected=exp),
-                         f"the call neither returned nor raised within {RUN_LIMIT_S}s; {what}; {seen}"))
+                         f"the call neither returned nor raised within {RUN_LIMIT_S}s of CPU time; {what}; {seen}"))
         return findings, drifts, notes
 
     if exp == "ok":
